@@ -491,6 +491,12 @@ def fn_anatomy(text: str) -> FnAnatomy:
                     q = match_close(ct, q) + 1
                     continue
                 if tx == '{':
+                    # a block in EXPRESSION position of the header (`while let P = { .. } {`, `for x in { .. } {`):
+                    # it directly follows an operator / `=` / `in`; the loop body is a later brace
+                    prev = ct[q - 1].text
+                    if t.text != 'loop' and (prev in ('=', 'in', '&&', '||', '!', '==', '!=', '<', '>', '<=', '>=', '+', '-', '*', '/', ',', '(')):
+                        q = match_close(ct, q) + 1
+                        continue
                     break
                 q += 1
             close = match_close(ct, q)
@@ -499,3 +505,81 @@ def fn_anatomy(text: str) -> FnAnatomy:
             n += 1
         j += 1
     return an
+
+
+# ---- closures (for `@closure N` annotations) -----------------------------------------------------------
+
+@dataclass
+class Closure:
+    ordinal: int
+    bar_open: int         # offset of the opening `|` (or of `||`)
+    params_end: int       # offset one past the closing `|`
+    params: List[Tuple[str, int]]   # (identifier, offset one past it) for simple identifier parameters
+    body_start: int
+    body_end: int         # offset one past the body expression
+    block: bool           # body is a `{ .. }` block
+
+
+_CLOSURE_PREV = {'(', ',', '=', 'move', '=>', '{', ';', 'return'}
+
+
+def closures(text: str) -> List[Closure]:
+    """closures of a function item, in source order (heuristic: a `|`/`||` directly after `(` `,` `=` `move` `=>` `{` `;`)"""
+    ct = code_tokens(lex(text))
+    out = []
+    i = 0
+    while i < len(ct):
+        t = ct[i]
+        if t.kind == 'punct' and t.text in ('|', '||') and i > 0 and ct[i - 1].text in _CLOSURE_PREV:
+            params = []
+            if t.text == '||':
+                pe = i
+            else:
+                pe = i + 1
+                while pe < len(ct) and ct[pe].text != '|':
+                    if ct[pe].text in _OPEN:
+                        pe = match_close(ct, pe)
+                    pe += 1
+                if pe >= len(ct):
+                    raise RsxError('unterminated closure parameter list at %d' % t.start)
+                # simple identifier params (possibly `mut x`), split at top-level commas
+                seg = ct[i + 1:pe]
+                cur = []
+                depth = 0
+                for x in seg + [None]:
+                    if x is None or (x.text == ',' and depth == 0):
+                        ids = [y for y in cur if y.kind == 'ident' and y.text != 'mut']
+                        if len(ids) == 1 and all(y.kind == 'ident' for y in cur):
+                            params.append((ids[0].text, ids[0].end))
+                        elif cur:
+                            params.append(('', cur[-1].end))
+                        cur = []
+                        continue
+                    if x.text in _OPEN:
+                        depth += 1
+                    elif x.text in _CLOSE:
+                        depth -= 1
+                    cur.append(x)
+            b = pe + 1
+            if b < len(ct) and ct[b].text == '->':
+                # already annotated return type: body is the block after it
+                while b < len(ct) and ct[b].text != '{':
+                    b += 1
+            if b >= len(ct):
+                break
+            if ct[b].text == '{':
+                be = match_close(ct, b)
+                out.append(Closure(len(out), t.start, ct[pe].end, params, ct[b].start, ct[be].end, True))
+            else:
+                e = b
+                depth = 0
+                while e < len(ct):
+                    x = ct[e].text
+                    if x in _OPEN:
+                        e = match_close(ct, e)
+                    elif x in _CLOSE or x in (',', ';'):
+                        break
+                    e += 1
+                out.append(Closure(len(out), t.start, ct[pe].end, params, ct[b].start, ct[e - 1].end, False))
+        i += 1
+    return out
